@@ -26,8 +26,8 @@ PmObsInit(c) ==
     shutDue |-> 0, shutNext |-> FALSE,
     shutClean |-> FALSE,                         \* when the stop request arrived nothing else was waiting to be handled before it
     found |-> <<>>,                              \* ticks of found_dead events (first is_alive() = False per process; informational)
-    sure |-> 0,                                  \* restarts of workers that had died on their own, outside reload-all ticks
-    maybe |-> 0,                                 \* the same, reload-all ticks included (whether those count is the manager's choice)
+    sure |-> 0,                                  \* unexpected exits handled by a restart: the worker had died on its own in an EARLIER tick
+    maybe |-> 0,                                 \* (same value; kept as a separate field for the trace format)
     kills |-> <<>>, killing |-> FALSE,
     ret |-> 2 ]                                  \* 2 = still running, 0 = success, -1 = failure, 3 = crashed
 
@@ -53,8 +53,8 @@ PmFold(c, o, ev) ==
          THEN [o EXCEPT !.old = IF o.cur[ev.slot].pid # 0 THEN @ \cup {[pid |-> o.cur[ev.slot].pid, joined |-> o.cur[ev.slot].joined]} ELSE @,
                         !.cur[ev.slot] = [pid |-> ev.pid, alive |-> TRUE, diedAt |-> 0, term |-> FALSE, joined |-> FALSE],
                         !.startsInTick[ev.slot] = @ + 1,
-                        !.sure = IF o.cur[ev.slot].pid # 0 /\ o.cur[ev.slot].diedAt # 0 /\ o.reloadDue # o.tick THEN @ + 1 ELSE @,
-                        !.maybe = IF o.cur[ev.slot].pid # 0 /\ o.cur[ev.slot].diedAt # 0 THEN @ + 1 ELSE @]
+                        !.sure = IF o.cur[ev.slot].pid # 0 /\ o.cur[ev.slot].diedAt # 0 /\ o.cur[ev.slot].diedAt < o.tick THEN @ + 1 ELSE @,
+                        !.maybe = IF o.cur[ev.slot].pid # 0 /\ o.cur[ev.slot].diedAt # 0 /\ o.cur[ev.slot].diedAt < o.tick THEN @ + 1 ELSE @]
          ELSE o
     [] ev.e = "terminate" ->
          [o EXCEPT !.cur = [i \in Slots(c) |-> IF o.cur[i].pid = ev.pid THEN [o.cur[i] EXCEPT !.term = TRUE, !.alive = FALSE] ELSE o.cur[i]]]
@@ -67,11 +67,12 @@ PmFold(c, o, ev) ==
     [] OTHER -> o
 
 (* The failure budget counts "unexpected worker exits the manager has handled".  What the manager has noticed is internal,   *)
-(* so the count is bracketed by what can be seen from outside: every restart of a worker that had died on its own is a      *)
-(* handled exit, except that in a tick in which a reload-all is carried out the restart may belong to the reload (the       *)
-(* manager may or may not have noticed the death): sure <= handled <= maybe.  Dead, not yet replaced workers are the exits  *)
-(* that can be "being handled" when the manager gives up.                                                                   *)
-DeadNow(c, o) == Cardinality({i \in Slots(c) : o.cur[i].pid # 0 /\ o.cur[i].diedAt # 0})
+(* so the count is defined from outside: a worker that died on its own in tick d is seen dead by the liveness scan of tick d *)
+(* at the latest, and its replacement in a LATER tick is a handled unexpected exit - also when a reload-all is carried out   *)
+(* in that tick (the failure action was queued first).  A worker that dies in the very tick in which a reload-all replaces   *)
+(* it was restarted by the reload, which never consumes budget.  Dead, not yet replaced workers that died in an earlier tick *)
+(* are the exits that can be "being handled" when the manager gives up.                                                      *)
+DeadNow(c, o) == Cardinality({i \in Slots(c) : o.cur[i].pid # 0 /\ o.cur[i].diedAt # 0 /\ o.cur[i].diedAt < o.tick})
 Overdue(c, o, t) == Cardinality({i \in Slots(c) : ~o.cur[i].alive /\ o.cur[i].pid # 0 /\ o.cur[i].diedAt # 0 /\ o.cur[i].diedAt <= t})
 LivePids(c, o) == {o.cur[i].pid : i \in {j \in Slots(c) : o.cur[j].alive}}
 CurPids(c, o) == {o.cur[i].pid : i \in Slots(c)}
@@ -92,12 +93,16 @@ PmCheck(c, op, o, ev) ==
              IN (IF od > 0 /\ ~spent THEN {"C17_Replaced"} ELSE {})
                 \cup (IF c.max_fails >= 1 /\ (op.sure >= c.max_fails \/ (od > 0 /\ spent)) THEN {"C18_BudgetIgnored"} ELSE {})
         ELSE {})
+  (* giving up with the failure status while the budget is not exhausted leaves dead workers without a replacement *)
+  \cup (IF ev.e = "ret" /\ ev.n = -1 /\ Overdue(c, op, op.tick) > 0
+           /\ ~(c.max_fails >= 1 /\ op.maybe + DeadNow(c, op) >= c.max_fails)
+        THEN {"C17_Replaced"} ELSE {})
   (* ---------------- C18: budget ---------------- *)
   \cup (IF ev.e = "ret" /\ ev.n = -1
            /\ ~(c.max_fails >= 1 /\ DeadNow(c, op) >= 1 /\ op.maybe + DeadNow(c, op) >= c.max_fails)
         THEN {"C18_BudgetEarly"} ELSE {})
   \cup (IF ev.e = "ret" /\ ev.n \notin {0, -1} THEN {"C18_ReturnStatus"} ELSE {})
-  \cup (IF ev.e = "raised" THEN {"C18_Crashed"} ELSE {})
+  \cup (IF ev.e = "raised" THEN {"C18_Crashed", "C17_Crashed"} ELSE {})
   (* ---------------- C18: reload-all ---------------- *)
   \cup (IF ev.e \in {"tick", "eot"} /\ op.ret = 2 /\ op.tick >= 1
         THEN (IF op.reloadDue = op.tick /\ \E i \in Slots(c) : op.startsInTick[i] # 1 THEN {"C18_ReloadAll"} ELSE {})
